@@ -725,6 +725,8 @@ class _ActionSubCommands(_SubParsersAction):
 
         if subcommand:
             subcommand_keys = [subcommand]
+            if subcommand not in action._name_parser_map:
+                raise NSKeyError(f'expected "{dest}" to be one of {{{",".join(action._name_parser_map)}}}, but got "{subcommand}".')
 
         if fail_no_subcommand:
             if subcommand is None and not (fail_no_subcommand and action._required):  # type: ignore[attr-defined]
